@@ -95,7 +95,7 @@ def elem_index_pair(e, i):
 def r1(prog, ev, rep, sites):
     rep.rule("C03-R1", "index coherence at every Pointer::idx(elem, path, i): i is the index elem was fetched with and path is "
              "the parent's path (idioms: one enumerate item of the container's iterator; the same index term for A[i] / "
-             "A.get(i); an (elem, i) tuple every construction of which pairs an element with its own index)", floor=6)
+             "A.get(i); an (elem, i) tuple every construction of which pairs an element with its own index)", floor=4)
     n = 0
     for p, c in sites:
         if c.a[0] != PTR + "idx":
